@@ -2137,3 +2137,233 @@ def desugar_return_all_any(model) -> bool:
             ast.fix_missing_locations(mod.tree)
             changed = True
     return changed
+
+
+# --------------------------------------------------------------------------- partial objects and extend(map(..))
+_fresh_counter = [0]
+
+
+def desugar_partials_and_extends(model) -> bool:
+    """`g = functools.partial(F, k=v)` (a local bound once, arguments plain names) + `g(x)` -> `F(x, k=v)`;
+    `xs.extend(map(f, ys))` / `xs.extend(f(y) for y in ys)` / `xs.extend([f(y) for y in ys])` -> the loop of
+    `xs.append(..)` it stands for.  Neither construct occurs in a function body of the pinned tree in this form
+    (`ft.partial` is only used as a return value / argument there), so the pass is the identity on it."""
+    changed = False
+    for f in list(model.functions.values()):
+        if f.module.short.startswith("_typeguard") or not isinstance(f.node, (ast.FunctionDef, ast.AsyncFunctionDef)):
+            continue
+        # local partials
+        stores = {}
+        for n in _walk_own(f.node):
+            if isinstance(n, ast.Name) and isinstance(n.ctx, (ast.Store, ast.Del)):
+                stores[n.id] = stores.get(n.id, 0) + 1
+        partials = {}
+        for n in _walk_own(f.node):
+            if isinstance(n, ast.Assign) and len(n.targets) == 1 and isinstance(n.targets[0], ast.Name) and stores.get(n.targets[0].id) == 1 and isinstance(n.value, ast.Call):
+                fn = n.value.func
+                nm = fn.attr if isinstance(fn, ast.Attribute) else fn.id if isinstance(fn, ast.Name) else None
+                if nm == "partial" and n.value.args and _simple(n.value.args[0]) and all(_simple(a) for a in n.value.args[1:]) \
+                        and all(k.arg is not None and _simple(k.value) for k in n.value.keywords):
+                    # every other occurrence must be a call `g(..)` or `map(g, ..)`
+                    name = n.targets[0].id
+                    ok = True
+                    parents = {}
+                    for p in ast.walk(f.node):
+                        for c in ast.iter_child_nodes(p):
+                            parents[id(c)] = p
+                    for x in ast.walk(f.node):
+                        if isinstance(x, ast.Name) and x.id == name and isinstance(x.ctx, ast.Load):
+                            p = parents.get(id(x))
+                            if isinstance(p, ast.Call) and (p.func is x or (isinstance(p.func, ast.Name) and p.func.id == "map" and p.args and p.args[0] is x)):
+                                continue
+                            ok = False
+                    # the names the partial captured must not be re-bound afterwards
+                    captured = {y.id for a in list(n.value.args) + [k.value for k in n.value.keywords] for y in ast.walk(a) if isinstance(y, ast.Name)}
+                    if ok and not any(stores.get(c, 0) > 1 for c in captured):
+                        partials[name] = n
+        if partials:
+            class Tr(ast.NodeTransformer):
+                def visit_Call(self, c):
+                    self.generic_visit(c)
+                    if isinstance(c.func, ast.Name) and c.func.id in partials:
+                        pc = partials[c.func.id].value
+                        return ast.copy_location(ast.Call(func=copy.deepcopy(pc.args[0]), args=[copy.deepcopy(a) for a in pc.args[1:]] + c.args,
+                                                          keywords=[copy.deepcopy(k) for k in pc.keywords] + c.keywords), c)
+                    if isinstance(c.func, ast.Name) and c.func.id == "map" and len(c.args) == 2 and isinstance(c.args[0], ast.Name) and c.args[0].id in partials:
+                        pc = partials[c.args[0].id].value
+                        _fresh_counter[0] += 1
+                        v = f"__m{_fresh_counter[0]}"
+                        elt = ast.Call(func=copy.deepcopy(pc.args[0]), args=[copy.deepcopy(a) for a in pc.args[1:]] + [ast.Name(id=v, ctx=ast.Load())],
+                                       keywords=[copy.deepcopy(k) for k in pc.keywords])
+                        return ast.copy_location(ast.GeneratorExp(elt=elt, generators=[ast.comprehension(target=ast.Name(id=v, ctx=ast.Store()), iter=c.args[1], ifs=[], is_async=0)]), c)
+                    return c
+
+                def visit_FunctionDef(self, n_):
+                    return n_ if n_ is not f.node else self.generic_visit(n_)
+
+                visit_AsyncFunctionDef = visit_FunctionDef
+                visit_Lambda = lambda self, n_: n_  # noqa: E731
+
+            Tr().visit(f.node)
+
+            def drop(stmts):
+                for i, st in enumerate(list(stmts)):
+                    if any(st is a for a in partials.values()):
+                        stmts.remove(st)
+                        if not stmts:
+                            stmts.append(ast.copy_location(ast.Pass(), st))
+                        continue
+                    for fld in ("body", "orelse", "finalbody"):
+                        sub = getattr(st, fld, None)
+                        if isinstance(sub, list) and sub and isinstance(sub[0], ast.stmt) and not isinstance(st, (ast.FunctionDef, ast.AsyncFunctionDef, ast.ClassDef)):
+                            drop(sub)
+                    for hd in getattr(st, "handlers", []) or []:
+                        drop(hd.body)
+
+            drop(f.node.body)
+            changed = True
+
+        # xs.extend(<map / generator / list comprehension>)
+        def extends(stmts):
+            ch = False
+            i = 0
+            while i < len(stmts):
+                st = stmts[i]
+                if isinstance(st, ast.Expr) and isinstance(st.value, ast.Call) and isinstance(st.value.func, ast.Attribute) and st.value.func.attr == "extend" \
+                        and _simple(st.value.func.value) and len(st.value.args) == 1 and not st.value.keywords:
+                    a = st.value.args[0]
+                    target = it = elt = None
+                    if isinstance(a, ast.Call) and isinstance(a.func, ast.Name) and a.func.id == "map" and len(a.args) == 2 and _simple(a.args[0]):
+                        _fresh_counter[0] += 1
+                        v = f"__m{_fresh_counter[0]}"
+                        target, it = ast.Name(id=v, ctx=ast.Store()), a.args[1]
+                        elt = ast.Call(func=a.args[0], args=[ast.Name(id=v, ctx=ast.Load())], keywords=[])
+                    elif isinstance(a, (ast.GeneratorExp, ast.ListComp)) and len(a.generators) == 1 and not a.generators[0].ifs and not a.generators[0].is_async:
+                        target, it, elt = a.generators[0].target, a.generators[0].iter, a.elt
+                        # the comprehension variable becomes a function local: it must not clash
+                        tn = {y.id for y in ast.walk(target) if isinstance(y, ast.Name)}
+                        others = {y.id for y in ast.walk(f.node) if isinstance(y, ast.Name) and not any(y is z for z in ast.walk(a))} | set(f.params)
+                        if tn & others:
+                            target = None
+                    if target is not None:
+                        app = ast.Expr(value=ast.Call(func=ast.Attribute(value=st.value.func.value, attr="append", ctx=ast.Load()), args=[elt], keywords=[]))
+                        loop = ast.copy_location(ast.For(target=_as_store(copy.deepcopy(target)), iter=it, body=[app], orelse=[]), st)
+                        ast.fix_missing_locations(loop)
+                        stmts[i] = loop
+                        ch = True
+                elif not isinstance(st, (ast.FunctionDef, ast.AsyncFunctionDef, ast.ClassDef)):
+                    for fld in ("body", "orelse", "finalbody"):
+                        sub = getattr(st, fld, None)
+                        if isinstance(sub, list) and sub and isinstance(sub[0], ast.stmt):
+                            ch |= extends(sub)
+                    for hd in getattr(st, "handlers", []) or []:
+                        ch |= extends(hd.body)
+                i += 1
+            return ch
+
+        if extends(f.node.body):
+            changed = True
+        if changed:
+            ast.fix_missing_locations(f.node)
+    return changed
+
+
+# --------------------------------------------------------------------------- contextlib.ExitStack with callbacks
+def desugar_exitstacks(model) -> bool:
+    """`with ExitStack() as s: s.callback(f, a); BODY` (+ `s.pop_all()` statements inside BODY) ->
+    `s__armed = True; try: BODY[s.pop_all() -> s__armed = False] finally: if s__armed: f(a)`.
+    Exact when the stack is created in the `with` item, every use of `s` is a leading `s.callback(..)` statement or a
+    `s.pop_all()` statement whose result is dropped (callbacks cannot swallow exceptions; several run in reverse
+    order).  The pinned tree does not use ExitStack."""
+    changed = False
+    for f in list(model.functions.values()):
+        if f.module.short.startswith("_typeguard") or not isinstance(f.node, (ast.FunctionDef, ast.AsyncFunctionDef)):
+            continue
+
+        def rewrite(stmts):
+            ch = False
+            i = 0
+            while i < len(stmts):
+                st = stmts[i]
+                if isinstance(st, ast.With) and len(st.items) == 1 and isinstance(st.items[0].optional_vars, ast.Name) and isinstance(st.items[0].context_expr, ast.Call) \
+                        and not st.items[0].context_expr.args and not st.items[0].context_expr.keywords \
+                        and (norm_dotted(st.items[0].context_expr.func) in ("contextlib.ExitStack", "ExitStack")):
+                    s = st.items[0].optional_vars.id
+                    body = list(st.body)
+                    cbs = []
+                    while body and isinstance(body[0], ast.Expr) and isinstance(body[0].value, ast.Call) and isinstance(body[0].value.func, ast.Attribute) \
+                            and isinstance(body[0].value.func.value, ast.Name) and body[0].value.func.value.id == s and body[0].value.func.attr == "callback" and body[0].value.args:
+                        cbs.append(body.pop(0).value)
+                    ok = bool(cbs) and bool(body)
+                    pops = []
+                    if ok:
+                        parents = {}
+                        for b in body:
+                            for p in ast.walk(b):
+                                for c in ast.iter_child_nodes(p):
+                                    parents[id(c)] = p
+                        for b in body:
+                            for x in ast.walk(b):
+                                if isinstance(x, ast.Name) and x.id == s:
+                                    p1 = parents.get(id(x))
+                                    p2 = parents.get(id(p1)) if p1 is not None else None
+                                    p3 = parents.get(id(p2)) if p2 is not None else None
+                                    if isinstance(p1, ast.Attribute) and p1.attr == "pop_all" and isinstance(p2, ast.Call) and not p2.args and (isinstance(p3, ast.Expr) or p2 in body and False):
+                                        pops.append(p3)
+                                    elif isinstance(p1, ast.Attribute) and p1.attr == "pop_all" and isinstance(p2, ast.Call) and isinstance(p3, ast.Expr):
+                                        pops.append(p3)
+                                    else:
+                                        ok = False
+                        # uses of s after the with statement
+                        for later in stmts[i + 1:]:
+                            if any(isinstance(x, ast.Name) and x.id == s for x in ast.walk(later)):
+                                ok = False
+                    if ok:
+                        flag = f"{s}__armed"
+
+                        class Tr(ast.NodeTransformer):
+                            def visit_Expr(self, n):
+                                if any(n is p for p in pops):
+                                    return ast.copy_location(ast.Assign(targets=[ast.Name(id=flag, ctx=ast.Store())], value=ast.Constant(value=False), lineno=n.lineno), n)
+                                return n
+
+                            def visit_FunctionDef(self, n):
+                                return n
+
+                            visit_AsyncFunctionDef = visit_Lambda = visit_FunctionDef
+
+                        body = [Tr().visit(b) for b in body]
+                        calls = [ast.Expr(value=ast.Call(func=c.args[0], args=list(c.args[1:]), keywords=list(c.keywords))) for c in reversed(cbs)]
+                        new = [ast.Assign(targets=[ast.Name(id=flag, ctx=ast.Store())], value=ast.Constant(value=True), lineno=st.lineno),
+                               ast.Try(body=body, handlers=[], orelse=[], finalbody=[ast.If(test=ast.Name(id=flag, ctx=ast.Load()), body=calls, orelse=[])])]
+                        for n_ in new:
+                            ast.copy_location(n_, st)
+                            ast.fix_missing_locations(n_)
+                        stmts[i:i + 1] = new
+                        ch = True
+                        i += 2
+                        continue
+                if not isinstance(st, (ast.FunctionDef, ast.AsyncFunctionDef, ast.ClassDef)):
+                    for fld in ("body", "orelse", "finalbody"):
+                        sub = getattr(st, fld, None)
+                        if isinstance(sub, list) and sub and isinstance(sub[0], ast.stmt):
+                            ch |= rewrite(sub)
+                    for hd in getattr(st, "handlers", []) or []:
+                        ch |= rewrite(hd.body)
+                i += 1
+            return ch
+
+        if rewrite(f.node.body):
+            ast.fix_missing_locations(f.node)
+            changed = True
+    return changed
+
+
+def norm_dotted(e) -> str:
+    parts = []
+    while isinstance(e, ast.Attribute):
+        parts.append(e.attr)
+        e = e.value
+    if isinstance(e, ast.Name):
+        parts.append(e.id)
+    return ".".join(reversed(parts))
